@@ -126,6 +126,25 @@ ptype check — enforced by the generator). `Gen.classWritesBeforeSuper` is rege
 theorem no_write_before_guard : ∀ c, classWritesBeforeSuper c = [] := by
   intro c; cases c <;> rfl
 
+/-- a plane type supplied by the CALLER (`C(…, ptype=p)`, table `Gen.classPtypeWith` regenerated from the constructor chain
+`C.__init__ → … → Plane.__init__`): a class either refuses the keyword for every `p` (TypeError at construction: Pupil and
+Image fix their type and would hand `ptype` to `Plane.__init__` twice, Rotate and Flip take no such keyword) or takes EXACTLY
+the type it is given (Plane, LensletArray and the tilt family Tilt/DispersiveTilt/Grism, whose default `tilt` applies only
+when none is given) — no constructor turns a supplied type into another one, so the plane then behaves as the row `p` of the
+table (`mul_refused_iff`, `mul_result_type`), and the documented default of every accepting class is among the types it accepts -/
+theorem caller_ptype_table :
+    (∀ c p q, classPtypeWith c p = some q → q = p) ∧
+    (∀ p, classPtypeWith .Plane p = some p ∧ classPtypeWith .LensletArray p = some p ∧ classPtypeWith .Tilt p = some p ∧
+          classPtypeWith .DispersiveTilt p = some p ∧ classPtypeWith .Grism p = some p) ∧
+    (∀ p, classPtypeWith .Pupil p = none ∧ classPtypeWith .Image p = none ∧ classPtypeWith .Rotate p = none ∧
+          classPtypeWith .Flip p = none) ∧
+    (∀ c p, (classPtypeWith c p).isSome → classPtypeWith c (classPtype c) = some (classPtype c)) := by
+  refine ⟨?_, ?_, ?_, ?_⟩
+  · intro c p q h; cases c <;> cases p <;> simp [classPtypeWith] at h <;> exact h.symm
+  · intro p; cases p <;> exact ⟨rfl, rfl, rfl, rfl, rfl⟩
+  · intro p; cases p <;> exact ⟨rfl, rfl, rfl, rfl⟩
+  · intro c p h; cases c <;> cases p <;> first | rfl | (simp [classPtypeWith] at h)
+
 /-- "a refused operation leaves both operands unchanged", structural part for PROPAGATION: neither `propagate_dft` nor
 `propagate_fft` writes an attribute or item of its `wavefront` operand, calls an in-place mutator on it, or hands it to a
 helper that does (followed into `_has_tilt`), up to and including the `_propagate_ptype` call that raises the TypeError of a
